@@ -303,11 +303,11 @@ fn oneshot_encode(ch: &mut Chooser, ctx: &mut Ctx, op_no: usize) {
         (Ok(s), Ok(g)) => {
             ctx.count("c10.oneshot_encode_compared");
             if s != g {
-                ctx.viol(&["C10"], "oneshot-equals-streaming", "oneshot/encode/bytes".into(), format!("encode({k}, {r}, ..) returns other bytes than the streaming encoder"), false);
+                ctx.viol(&["C10", "C09"], "oneshot-equals-streaming", "oneshot/encode/bytes".into(), format!("encode({k}, {r}, ..) returns other bytes than the streaming encoder"), false);
             }
         }
         (Ok(_), Err(e)) => {
-            ctx.viol(&["C10", "C06"], "oneshot-equals-streaming", format!("oneshot/encode/{}", err_name(e)), format!("encode({k}, {r}, {n} shards) returned Err({e:?}) where the streaming sequence succeeds"), false);
+            ctx.viol(&["C10", "C09", "C06"], "oneshot-equals-streaming", format!("oneshot/encode/{}", err_name(e)), format!("encode({k}, {r}, {n} shards) returned Err({e:?}) where the streaming sequence succeeds"), false);
         }
         (Err(se), Ok(_)) => {
             ctx.viol(&["C10", "C06"], "oneshot-equals-streaming", "oneshot/encode/ok-where-streaming-fails".into(), format!("encode({k}, {r}, {n} shards, lens {:?}) returned Ok where the streaming sequence fails with {se:?}", &lens[..lens.len().min(8)]), false);
@@ -520,11 +520,11 @@ fn oneshot_decode(ch: &mut Chooser, ctx: &mut Ctx, op_no: usize) {
         (Ok(s), Ok(g)) => {
             ctx.count("c10.oneshot_decode_compared");
             if s != g {
-                ctx.viol(&["C10"], "oneshot-equals-streaming", "oneshot/decode/bytes".into(), format!("decode({k}, {r}, ..) restores other shards than the streaming decoder"), false);
+                ctx.viol(&["C10", "C09"], "oneshot-equals-streaming", "oneshot/decode/bytes".into(), format!("decode({k}, {r}, ..) restores other shards than the streaming decoder"), false);
             }
         }
         (Ok(_), Err(e)) => {
-            ctx.viol(&["C10", "C06"], "oneshot-equals-streaming", format!("oneshot/decode/{}", err_name(e)), format!("decode({k}, {r}, originals {o_meta:?}, recovery {r_meta:?}) returned Err({e:?}) where the streaming sequence succeeds"), false);
+            ctx.viol(&["C10", "C09", "C06"], "oneshot-equals-streaming", format!("oneshot/decode/{}", err_name(e)), format!("decode({k}, {r}, originals {o_meta:?}, recovery {r_meta:?}) returned Err({e:?}) where the streaming sequence succeeds"), false);
         }
         (Err(se), Ok(g)) => {
             ctx.viol(&["C10"], "oneshot-equals-streaming", format!("oneshot/decode/ok-where-streaming-fails/{}", if rec.is_empty() { "no-recovery-given" } else { "with-recovery" }), format!("decode({k}, {r}, originals (index,len) {o_meta:?}, recovery {r_meta:?}) returned Ok({} restored) where the streaming sequence fails with {se:?}", g.len()), false);
